@@ -10,6 +10,12 @@ CHECKS = {
  "C03": ("inter", "bounded-exhaustive enumeration of predicted-picture syntax trees over noise reference pictures (all macroblock-kind assignments, all 64x64 differentials per size class and phase, truncation at every macroblock and byte) against a reference decoder",
          "Small-scope exhaustive: all 7^n macroblock-kind assignments on five grids, every differential on single-macroblock pictures of each size class (vectors up to 16 samples outside every edge, all half-sample phases, fast and generic fetch path) and on the interior of 48x48 with three residual kinds, truncation after every macroblock and at every byte, prediction without reference, residual clipping - whole pictures compared with the reference decoder.",
          "Reference pictures are LCG noise so a wrong vector/phase/clamp is visible; scope (<= 9 macroblocks, sizes <= 48) stands for larger pictures.", "3.3"),
+ "C10": ("idct", "complete enumeration of the prescribed finite Annex A block sets (per generator seed) and of the sparse-shortcut lattices through the hooked channel IDCT, against an f64 reference",
+         "The Annex A / IEEE 1180 procedure verbatim (10000 blocks x 3 ranges x 2 signs per generator seed; peak, per-position and overall mean-square and mean errors, zero block); all 4096 DC-only blocks; first-row/first-column blocks: every single-entry vector over -2048..2047, every two-entry vector over a boundary set, dense vectors - each against the double-precision transform (peak <= 1).",
+         "Accuracy is statistical by definition: the prescribed sets are enumerated completely, further seeds are further finite sets; residual -256 is observable only as <= -255 through a u8 plane. Uses the feature-gated re-export of idct_channel and DecodedDctBlock.", "3.10"),
+ "C11": ("dequant", "exhaustive enumeration of the finite quantizer x level x position domain through the hooked dequantiser, and of every codable level form end to end, against the closed-form rule",
+         "All 31 quantizers x levels +-1..1023 x 64 zig-zag positions x {with, without INTRADC} are dequantised by the real routine and compared exactly (value and position); every quantizer x every level in every codable form is also decoded end to end in intra pictures and compared with the reference decoder; all 256 INTRADC codes x 6 blocks; all 31 x 4 quantizer updates against the picture coded with the clamped quantizer.",
+         "Direct part uses the feature-gated re-export of inverse_rle; end-to-end part observes through IDCT rounding under the rounding-boundary rule.", "3.11"),
  "C12": ("inter", "exhaustive enumeration of the finite vector domains (64x64 predictor/differential pairs per component, all 253 four-vector sums, all neighbour-kind assignments on 9 grids) through whole decoded P pictures",
          "Every (predictor, differential) pair per component and jointly, in a first-row pair and in the interior of a 3x3 grid; every possible sum of four luma vectors in three decompositions for both components; every assignment of {INTER, INTER4V, INTRA, not-coded} to the existing neighbours of every target position on nine macroblock grids for INTER and INTER4V targets; every MVD codeword. The decoded picture over a noise reference is compared with the model's prediction.",
          "Vectors are observed through pixels (noise reference); differentials for prescribed vectors are derived with the model's own predictor, so a model error would show as a false alarm on the unchanged tree, not as silence.", "3.12"),
